@@ -232,6 +232,9 @@ func (cn *canoner) c1(v ssa.Value, d int) string {
 		if sv := singleStore(x); sv != nil {
 			return "&" + cn.c(sv, d+1)
 		}
+		if pv := spilledParam(x); pv != nil {
+			return "&" + cn.c(pv, d+1)
+		}
 		idx := 0
 		for _, b := range x.Parent().Blocks {
 			for _, in := range b.Instrs {
@@ -260,6 +263,9 @@ func (cn *canoner) c1(v ssa.Value, d int) string {
 			case *ssa.Alloc:
 				if sv := singleStore(a); sv != nil {
 					return cn.c(sv, d+1)
+				}
+				if pv := spilledParam(a); pv != nil {
+					return cn.c(pv, d+1)
 				}
 				return "*" + cn.c(a, d+1)
 			case *ssa.FreeVar:
